@@ -398,9 +398,6 @@ impl Rig {
     pub fn wrap(&self, mac: &[u8; 6], ext: [u8; 8], ipp: &[u8]) -> Vec<u8> {
         super::c03::world::World::wrap_ip(self.cfg.medium, mac, ext, ipp)
     }
-    pub fn from_peer(&self, ipp: &[u8]) -> Vec<u8> {
-        self.wrap(&PEER_MAC, PEER_EXT, ipp)
-    }
 
     pub fn ns_frame(&self, src: &[u8; 16], mac: &[u8; 6], ext: [u8; 8], target: &[u8; 16], sllao: bool, unicast_dst: bool) -> Vec<u8> {
         let dst = if unicast_dst { *target } else { solicited(target) };
